@@ -4,7 +4,7 @@ L1 (Kani)   StorageLayout::add keeps slots ordered by (full 256-bit index, offse
             added; index conversions keep every bit; U256Wrapper's order is the unsigned 256-bit order.
 L2 (mirsmt) the offset producer of packed entries: every SubWord produced by the sub-word lifting lies inside the
             word (offset < 256, offset + size <= 256) for ALL mask positions and ALL 256-bit shift constants.
-L2 (Kani)   MulShiftedValue::which_power_of_2 returns k exactly for 2^k (thorough tier).
+L2 (Kani)   MulShiftedValue::which_power_of_2 returns k exactly for 2^k and None for 2^k + 2^j (k < 16 quick, < 64 thorough).
 """
 import time
 
@@ -83,8 +83,10 @@ def run(out, tier):
             out.obligation("L2.sub_word_inside_word", "mirsmt", "inconclusive", 0, witness=False, note=str(e))
             out.inconc("L2: %s" % e)
     # ---- L1 (+ which_power_of_2) with Kani ---------------------------------------------------------------------------
-    names = L1 + (L1_THOROUGH + ["pow2_which"] if tier == "thorough" else [])
-    kani.run_family(out, names + ["layout_twin"], expect_fail=["layout_twin"], tier=tier)
+    names = L1 + ["pow2_exact_16", "pow2_rejects_16"] + (L1_THOROUGH + ["pow2_exact_64", "pow2_rejects_64"] if tier == "thorough" else [])
+    out.bounds.append("which_power_of_2: 2^k -> Some(k) and 2^k + 2^j -> None for k < 16 (quick) / k < 64 (thorough); "
+                      "the full 256-step loop did not finish under CBMC in 1800 s")
+    kani.run_family(out, names + ["layout_twin"], expect_fail=["layout_twin"], tier=tier, timeout_s=150 if tier == "quick" else 1800)
 
 
 class _Quiet:
